@@ -202,6 +202,21 @@ func (fi *FuncInfo) headerInvariants(hb *ssa.BasicBlock) {
 			}
 		}
 	}
+	// … and slices/strings that are re-sliced at a loop-carried position without
+	// their length ever being spelled out (`f(src[offset:])` in a loop over fields)
+	for _, b := range fi.Fn.Blocks {
+		for _, in := range b.Instrs {
+			sl, ok := in.(*ssa.Slice)
+			if !ok || seenLen[sl.X] || !definedAbove(sl.X, hb) || !isSeq(sl.X.Type()) {
+				continue
+			}
+			if !hb.Dominates(sl.Block()) {
+				continue
+			}
+			seenLen[sl.X] = true
+			lens = append(lens, sl.X)
+		}
+	}
 	var all []*invariant
 	for _, p := range phis {
 		var cands []*invariant
